@@ -15,7 +15,7 @@ from pathlib import Path
 VERIF = Path(__file__).resolve().parents[2]
 REPO = Path(os.environ.get("VERIF_REPO", "/repo")).resolve()
 LEAN = VERIF / "lean"
-EVIDENCE = VERIF / "evidence"
+EVIDENCE = Path(os.environ["VERIF_EVIDENCE_DIR"]) if os.environ.get("VERIF_EVIDENCE_DIR") else VERIF / "evidence"
 REPLAYS = EVIDENCE / "replays"
 CORPUS = VERIF / "corpus"
 KNOWN = VERIF / "known_findings.txt"
